@@ -590,6 +590,9 @@ func optOutputs(amount massutil.Amount, utxos []*txmgr.Credit) ([]*txmgr.Credit,
 }
 
 func (w *WalletManager) SignHash(pub *btcec.PublicKey, hash, password []byte) (*btcec.Signature, error) {
+	// lock again, as signWitnessTx does: a wallet left unlocked keeps its private
+	// keys and the derived master key in memory until the process ends
+	defer w.ksmgr.ClearPrivKey()
 	return w.ksmgr.SignHash(pub, hash, password)
 }
 
